@@ -55,6 +55,9 @@ class C03(Prop):
             if L < 40 or L % 97 == 0 or ctx.tier == "thorough" and L % 7 == 0:
                 for cls, d in near_misses(r, f):
                     yield ("FRAME " + hx(d), cls, spec_frame(d)[1])
+        hc = huge_cases(r)
+        for d in (hc if ctx.tier == "thorough" else r.sample(hc, 8)):
+            yield ("FRAME " + hx(d), "huge-slice", True)
         for _ in range(300 if ctx.tier == "quick" else 3000):
             n = r.choice([0, 1, 5, 6, 7, r.randrange(0, 40)])
             d = bytearray(rand_bytes(r, n))
@@ -87,6 +90,8 @@ class C13(Prop):
             f = mk_frame(payload_for(r, L, num), r.choice([0, 0, 5]))
             yield ("FRAME " + hx(f), "bare", False)
             sfxs = [b"\x00", b"\x01\x02", b"\x01\x02\x03\x04", rand_bytes(r, 40), mk_frame(payload_for(r, 5, 1005))]
+            if L in (0, 1, 2, 1023):
+                sfxs.append(bytes(65536 - L - 6 + r.choice([0, 1, 5])))
             if L > 8 and ctx.tier == "thorough":
                 sfxs = sfxs[:2]
             for s in sfxs:
@@ -113,6 +118,14 @@ class C05(Prop):
             yield ("SCAN " + hx(s), "scan", kinds >= 2)
             if r.random() < 0.6:
                 yield ("ITER " + hx(s), "iter", kinds >= 2)
+        for rep in range(2 if ctx.tier == "quick" else 20):
+            for s in stray_cases(r):
+                yield ("SCAN " + hx(s), "stray-before-frame", True)
+                yield ("ITER " + hx(s), "stray-before-frame", True)
+        hc = huge_cases(r)
+        for s in (hc if ctx.tier == "thorough" else r.sample(hc, 4)):
+            yield ("SCAN " + hx(s), "huge-buffer", True)
+            yield ("ITER " + hx(s[:-7] + mk_frame(b"\x3e\xd0") [:8] if False else s), "huge-buffer", True)
         for _ in range(20 if ctx.tier == "quick" else 200):
             s = rand_bytes(r, r.randrange(0, 3000))
             yield ("SCAN " + hx(s), "random", s.count(0xD3) >= 2)
@@ -149,6 +162,10 @@ class C06(Prop):
         for _ in range(6 if ctx.tier == "quick" else 60):
             s, kinds = stream_mix(r, 3, maxlen=12)
             yield ("FEED " + "|".join(hx(s[i:i + 1]) for i in range(len(s))), "one-byte-chunks", True)
+        for s in stray_cases(r):
+            cuts = sorted(set(r.randrange(0, min(len(s), 60) + 1) for _ in range(3)))
+            parts = [s[a:b] for a, b in zip([0] + cuts, cuts + [len(s)])]
+            yield ("FEED " + "|".join(hx(p) for p in parts), "stray-before-frame", True)
         f = mk_frame(payload_for(r, 6, 1005))
         pre = rand_bytes(r, 2)
         for cut in range(len(f) + 1):
